@@ -145,7 +145,12 @@ type Grammar struct {
 	SetPredIn  []int    // rules whose action calls setPred
 	SetResIn   []int    // rules whose action calls setResult
 	Tokens     map[string]bool
-	NilPaths   []string // actions with a path that leaves a node-typed $$ unset without recording an error
+	NilPaths   []string      // actions with a path that leaves a node-typed $$ unset without recording an error
+	ProdVals   map[int]*AVal // what each production's action assigns to $$
+	YSrc       string
+	Prec       map[string]int    // token → precedence level (1 = lowest), from %left/%right/%nonassoc
+	Assoc      map[string]string // token → left|right|nonassoc
+	ProdPrec   map[int]string    // production → %prec token, if any
 	p          *Prog
 	ctorMemo   map[string]*AVal
 }
@@ -164,7 +169,7 @@ func (p *Prog) grammar() (*Grammar, error) {
 }
 
 func (p *Prog) buildGrammar() (*Grammar, error) {
-	g := &Grammar{Rules: map[int]*GRule{}, Actions: map[int]*ast.CaseClause{}, Vals: map[string]*AVal{}, Slots: map[slotKey]ShapeSet{},
+	g := &Grammar{ProdVals: map[int]*AVal{}, Prec: map[string]int{}, Assoc: map[string]string{}, ProdPrec: map[int]string{}, Rules: map[int]*GRule{}, Actions: map[int]*ast.CaseClause{}, Vals: map[string]*AVal{}, Slots: map[slotKey]ShapeSet{},
 		NextShapes: ShapeSet{}, RootShapes: ShapeSet{}, Built: ShapeSet{}, Tokens: map[string]bool{}, p: p, ctorMemo: map[string]*AVal{}}
 	tmp, err := os.MkdirTemp("", "sqljsonlint-yacc-")
 	if err != nil {
@@ -177,6 +182,9 @@ func (p *Prog) buildGrammar() (*Grammar, error) {
 		if err := os.WriteFile(ypath, ov, 0o644); err != nil {
 			return nil, err
 		}
+	}
+	if b, err := os.ReadFile(ypath); err == nil {
+		g.YSrc = string(b)
 	}
 	self, _ := os.Executable()
 	goyacc := filepath.Join(filepath.Dir(self), "goyacc")
@@ -261,7 +269,31 @@ func (p *Prog) buildGrammar() (*Grammar, error) {
 		}
 	}
 	g.interpret()
+	g.parsePrec()
 	return g, nil
+}
+
+var precRe = regexp.MustCompile(`^%(left|right|nonassoc)\s+(.*)$`)
+
+// parsePrec reads the precedence declarations of grammar.y (declaration
+// section, in order: later lines bind tighter).
+func (g *Grammar) parsePrec() {
+	level := 0
+	for _, ln := range strings.Split(g.YSrc, "\n") {
+		ln = strings.TrimSpace(ln)
+		if ln == "%%" {
+			break
+		}
+		m := precRe.FindStringSubmatch(ln)
+		if m == nil {
+			continue
+		}
+		level++
+		for _, tok := range strings.Fields(m[2]) {
+			g.Prec[tok] = level
+			g.Assoc[tok] = m[1]
+		}
+	}
 }
 
 func (g *Grammar) isNT(s string) bool { return !g.Tokens[s] }
@@ -347,6 +379,10 @@ func (g *Grammar) interpret() {
 					})
 				}
 			}
+			if g.ProdVals[n] == nil {
+				g.ProdVals[n] = newAVal()
+			}
+			g.ProdVals[n].merge(cur)
 			if g.val(r.LHS).merge(cur) {
 				changed = true
 			}
